@@ -137,6 +137,44 @@ def execFail (c : Code) : List FStmt → LF → Option LF
   | .other :: fs, s => execFail c fs s
   | .releaseBeforeFailing :: fs, s => (exec c.release s).bind (execFail c fs)
   | .failWith :: _, s => some s
+  | .addFailure :: fs, s => execFail c fs s
+  | .exitCurrentTest :: _, s => some s
+
+/-! ### recording the failure is a callback into the installed output
+
+`failWith` = `addFailure` (-> `TestResult::addFailure` -> `TestOutput::printFailure`), then the terminator's
+`longjmp`.  `execFail` above is the report with an output whose `printFailure` does not allocate through
+`operator new` (console, verbose, TeamCity, the string buffer of the test fixture: they only use
+`SimpleString`, whose allocator bypasses the overloads).  `JUnitTestOutput::printFailure` does
+`new TestFailure(failure)`: with the thread-safe table installed that is one more whole wrapper call made
+by the SAME thread, from inside `fail` - if `fail` has not given the non-recursive mutex back yet, the
+constructor's `Lock()` blocks for ever. -/
+
+/-- the environment of a misuse report: `alloc` = the installed output's `printFailure` allocates through
+    `operator new` (JUnit, alone or inside a CompositeTestOutput); `locked` = `operator new` is on its
+    thread-safe wrapper right now -/
+structure Out where
+  alloc  : Bool
+  locked : Bool
+deriving DecidableEq, Repr, Inhabited
+
+/-- an output that does not allocate (what `execFail` assumes) -/
+def Out.quiet : Out := { alloc := false, locked := false }
+
+/-- the allocating callback: a whole wrapper call without misuse (constructor, `allocMemory`, destructor)
+    started in the state the reporter is in; `none` = blocks.  The block it registers is released again
+    when the output finishes the group (`resetTestGroupResult`), before the next observation. -/
+def callback (c : Code) (o : Out) (s : LF) : Option LF :=
+  if o.alloc && o.locked then (exec c.ctor s).bind (exec c.dtor) else some s
+
+/-- `MemoryLeakWarningReporter::fail` with the output `o` installed -/
+def execFailOut (c : Code) (o : Out) : List FStmt → LF → Option LF
+  | [], s => some s
+  | .other :: fs, s => execFailOut c o fs s
+  | .releaseBeforeFailing :: fs, s => (exec c.release s).bind (execFailOut c o fs)
+  | .failWith :: _, s => callback c o s
+  | .addFailure :: fs, s => (callback c o s).bind (execFailOut c o fs)
+  | .exitCurrentTest :: _, s => some s
 
 structure Sys where
   lf  : LF
@@ -166,6 +204,23 @@ def plainCallWith (c : Code) (op : DetOp) (s : Sys) : Option Sys :=
   (match (body op s.det).2 with
    | .normal => some s.lf
    | .misuse => execFail c c.fail s.lf).map (withDet (body op s.det).1)
+
+/-- the same two calls with the output `o` installed -/
+def leaveOut (c : Code) (o : Out) : Outcome → LF → Option LF
+  | .normal, s => exec c.dtor s
+  | .misuse, s => execFailOut c o c.fail s
+
+def wrapperOutWith (c : Code) (o : Out) (op : DetOp) (s : Sys) : Option Sys :=
+  ((exec c.ctor s.lf).bind (leaveOut c o (body op s.det).2)).map (withDet (body op s.det).1)
+
+def plainCallOutWith (c : Code) (o : Out) (op : DetOp) (s : Sys) : Option Sys :=
+  (match (body op s.det).2 with
+   | .normal => some s.lf
+   | .misuse => execFailOut c o c.fail s.lf).map (withDet (body op s.det).1)
+
+/-- the code as it is in the source tree at check time -/
+def wrapperOut (o : Out) (op : DetOp) (s : Sys) : Option Sys := wrapperOutWith Gen.ThreadSafe.code o op s
+def plainCallOut (o : Out) (op : DetOp) (s : Sys) : Option Sys := plainCallOutWith Gen.ThreadSafe.code o op s
 
 /-- the code as it is in the source tree at check time -/
 def wrapper (op : DetOp) (s : Sys) : Option Sys := wrapperWith Gen.ThreadSafe.code op s
@@ -202,6 +257,8 @@ def traceFail (c : Code) : List FStmt → LF → List LF
                           | some s' => traceFail c fs s'
                           | none => [])
   | .failWith :: _, _ => []
+  | .addFailure :: fs, s => traceFail c fs s
+  | .exitCurrentTest :: _, _ => []
 
 /-- all states of one wrapper call that starts with nobody inside: constructor, the point where the
     body runs, then destructor (normal exit) or `fail` (misuse report) -/
